@@ -2,7 +2,7 @@ CONSTANTS
   Conns = {"c1", "c2"}
   MaxChanges = 3
   MaxConc = 2
-  Kinds = {"proto", "addr", "rec"}
+  Kinds = {"fresh", "revert"}
   FailLate = TRUE
 INIT Init
 NEXT Next
